@@ -146,7 +146,7 @@ def main():
         pnum, punit = rng.choice(PERIODS)
         period_ns = pnum * 10 ** E[punit]
         nt = sum(1 for q in subformulas(phi) if q["op"] in TIMED)
-        bad = rng.random() < (0.4 if kind == "past" and ({"next", "snext"} & ops_of(phi)) else 0.12) and period_ns % 2 == 0
+        bad = rng.random() < (0.6 if kind == "past" and ({"next", "snext"} & ops_of(phi)) else 0.12) and period_ns % 2 == 0
         K = rng.choice([2, 2, 3])
         objs = []
         for k in range(K):
@@ -190,7 +190,7 @@ def main():
             for t in range(N):
                 evs += [ev_update(t, sample_at(w, t), k + 1) for k in range(K)]
             rels = [{"rel": "same_on_from", "x": 1 + int(bad), "y": k + 1, "k": (h + 1 if kind == "past" else 1)} for k in range(1 + int(bad), K)]
-            if bad and kind == "past" and period_ns % 2 == 0 and rng.random() < 0.7:
+            if bad and kind == "past" and period_ns % 2 == 0 and rng.random() < 0.9:
                 # object 1, whose pastify() is refused for a bound of k + 1/2 periods, is given half the sampling period - every bound is
                 # then a whole number of periods - and pastified again (seed r10 C03-2: horizons recorded by the refused call survived)
                 half = period_ns // 2
